@@ -807,6 +807,85 @@ Proof.
       * intros b. rewrite Ex, Ey, in_app_iff. tauto.
 Qed.
 
+(* ---------- DeallocateAll ---------- *)
+Lemma return_all_spec : forall l w,
+  let w' := return_all w l in
+  (forall p, getp w' p = getp w p) /\ fresh w' = fresh w /\
+  (forall y, In y (returned w') <-> In y l \/ In y (returned w)) /\
+  (forall y, ~ In y l -> fc w' y = fc w y /\ chain_of w' y = chain_of w y) /\
+  (forall y, In y l -> fc w' y = 0 /\ chain_of w' y = []).
+Proof.
+  induction l as [|b t IH]; intros w; cbv zeta.
+  - unfold return_all. simpl. repeat split; auto; try tauto.
+  - unfold return_all. cbn [foldl]. fold (return_all (add_returned (set_bytes w b 0 0) b) t).
+    set (w1 := add_returned (set_bytes w b 0 0) b).
+    destruct (IH w1) as (I1 & I2 & I3 & I4 & I5).
+    assert (forall y, y <> b -> fc w1 y = fc w y /\ chain_of w1 y = chain_of w y) as O.
+    { intros y N. split; [unfold w1; simpl; apply upd_other; exact N|].
+      apply chain_of_ext; unfold w1; simpl; try (apply upd_other; exact N). intros; reflexivity. }
+    assert (fc w1 b = 0 /\ chain_of w1 b = []) as Z0.
+    { assert (fc w1 b = 0) as F by (unfold w1; simpl; apply upd_same). split; [exact F|]. unfold chain_of. rewrite F. reflexivity. }
+    split; [intros p; rewrite I1; unfold w1; destruct p; reflexivity|]. split; [rewrite I2; reflexivity|]. split; [|split].
+    + intros y. rewrite I3. unfold w1. simpl. tauto.
+    + intros y Hn. destruct (I4 y) as (a1 & a2); [intro; apply Hn; right; assumption|].
+      destruct (O y) as (b1 & b2); [intro; subst; apply Hn; left; reflexivity|]. rewrite a1, a2. split; assumption.
+    + intros y Hy. destruct (in_dec Z.eq_dec y t) as [Ht|Ht]; [apply I5; exact Ht|].
+      destruct Hy as [<-|Hy]; [|contradiction]. destruct (I4 b Ht) as (a1 & a2). rewrite a1, a2. exact Z0.
+Qed.
+
+(* DeallocateAll 337-358: every buffer of the pool goes back to the manager, nothing stays live, cached or owned *)
+Lemma DeallocateAll_J q w : Jq q None w -> Jq q None (DeallocateAll w q).
+Proof.
+  intros Jw. unfold DeallocateAll. destruct (lfree (getp w q)) as [|h t] eqn:El; [exact Jw|]. rewrite <- El.
+  destruct Jw as ((g1 & g2 & g3) & P & O & d). pose proof P as (P1 & P2 & _). set (x := getp w q) in *.
+  set (l1 := rev0 (lfull x) []). set (wa := return_all w l1). set (wb := return_all wa (lfree x)).
+  destruct (return_all_spec l1 w) as (A1 & A2 & A3 & A4 & A5). fold wa in A1, A2, A3, A4, A5.
+  destruct (return_all_spec (lfree x) wa) as (B1 & B2 & B3 & B4 & B5). fold wb in B1, B2, B3, B4, B5.
+  assert (forall y, In y l1 <-> In y (lfull x)) as L1 by (intros y; unfold l1; rewrite rev0_spec, app_nil_r, <- in_rev; tauto).
+  assert (forall y, In y (own x) -> fc wb y = 0 /\ chain_of wb y = []) as InOwn.
+  { intros y Hy. destruct (in_dec Z.eq_dec y (lfree x)) as [Hr|Hr]; [apply B5; exact Hr|].
+    destruct (B4 y Hr) as (b1 & b2). rewrite b1, b2. apply A5. apply L1. unfold own in Hy. apply in_app_or in Hy. tauto. }
+  assert (forall y, ~ In y (own x) -> fc wb y = fc w y /\ chain_of wb y = chain_of w y) as NotOwn.
+  { intros y Hy. assert (~ In y (lfree x) /\ ~ In y l1) as (N1 & N2).
+    { split; intro H; apply Hy; unfold own; apply in_or_app; [right; exact H|left; apply L1; exact H]. }
+    destruct (B4 y N1) as (b1 & b2). destruct (A4 y N2) as (a1 & a2). rewrite b1, b2, a1, a2. split; reflexivity. }
+  assert (forall y, In y (returned wb) <-> In y (own x) \/ In y (returned w)) as Ret.
+  { intros y. rewrite B3, A3, L1. unfold own. rewrite in_app_iff. tauto. }
+  assert (fresh wb = fresh w) as Fr by (rewrite B2, A2; reflexivity).
+  assert (forall p, getp wb p = getp w p) as Gp by (intros p; rewrite B1, A1; reflexivity).
+  change (mkCP [] [] [] 0 []) with empty_pool.
+  apply assemble.
+  - split; [|split; [|rewrite Fr; exact g3]].
+    + intros y. destruct (in_dec Z.eq_dec y (own x)) as [Hy|Hy].
+      * destruct (InOwn y Hy) as (a & b). rewrite a, b. split; [lia|]. split; [constructor|intros z []].
+      * destruct (NotOwn y Hy) as (a & b). rewrite a, b. apply g1.
+    + intros y Hy. rewrite Fr. apply Ret in Hy. destruct Hy as [Hy|Hy]; [destruct (P2 y Hy); lia|apply g2; exact Hy].
+  - apply Pl_empty.
+  - rewrite Gp. apply Pl_frame with (w := w); [exact O| |lia|].
+    + intros y Hy. apply NotOwn. intro H. exact (d y H Hy).
+    + intros y Hy Hr. apply Ret in Hr. destruct Hr as [Hr|Hr]; [exact (d y Hr Hy)|]. destruct O as (_ & O2 & _). exact (proj2 (O2 y Hy) Hr).
+  - intros y [].
+Qed.
+
+(* after DeallocateAll: the pool owns nothing, nothing is live or cached, its counter is 0, and every buffer it owned is returned *)
+Lemma DeallocateAll_returns_everything q w :
+  Jq q None w -> lfree (getp w q) <> [] ->
+  let w' := DeallocateAll w q in
+  own (getp w' q) = [] /\ live (getp w' q) = [] /\ cache (getp w' q) = [] /\ acount (getp w' q) = 0 /\
+  (forall b, In b (own (getp w q)) -> In b (returned w')) /\ getp w' (negb q) = getp w (negb q).
+Proof.
+  intros Jw Ne. cbv zeta. unfold DeallocateAll. destruct (lfree (getp w q)) as [|h t] eqn:El; [congruence|]. rewrite <- El.
+  rewrite getp_setp_eq. rewrite getp_setp_neq by (destruct q; discriminate). cbn [own lfull lfree live cache acount app].
+  repeat (split; [reflexivity|]). set (x := getp w q) in *.
+  destruct (return_all_spec (rev0 (lfull x) []) w) as (A1 & A2 & A3 & A4 & A5).
+  destruct (return_all_spec (lfree x) (return_all w (rev0 (lfull x) []))) as (B1 & B2 & B3 & B4 & B5).
+  split.
+  - intros b Hb. assert (returned (setp (return_all (return_all w (rev0 (lfull x) [])) (lfree x)) q (mkCP [] [] [] 0 [])) =
+                         returned (return_all (return_all w (rev0 (lfull x) [])) (lfree x))) as -> by (destruct q; reflexivity).
+    apply B3. unfold own in Hb. apply in_app_or in Hb. destruct Hb as [Hb|Hb]; [right; apply A3; left; rewrite rev0_spec, app_nil_r, <- in_rev; exact Hb|left; exact Hb].
+  - rewrite B1, A1. reflexivity.
+Qed.
+
 (* ---------- all histories ---------- *)
 Lemma memb_In bk l : memb bk l = true -> In bk l.
 Proof.
@@ -814,12 +893,13 @@ Proof.
 Qed.
 
 (* operations of a history; a Deallocate of a block that is not live in that pool (a use the pool's contract forbids) is ignored *)
-Inductive gop := GAlloc (p : bool) | GFree (p : bool) (bk : blk) | GMerge (d : bool).
+Inductive gop := GAlloc (p : bool) | GFree (p : bool) (bk : blk) | GMerge (d : bool) | GAll (p : bool).
 Definition gstep (w : cworld) (o : gop) : cworld :=
   match o with
   | GAlloc p => fst (Allocate C uc w p)
   | GFree p bk => if memb bk (live (getp w p)) then Deallocate C CF uc w p bk else w
   | GMerge d => MergeFrom C uc w d
+  | GAll p => DeallocateAll w p
   end.
 Definition grun (ops : list gop) : cworld := foldl gstep ops empty_world.
 
@@ -827,7 +907,7 @@ Definition nocache (w : cworld) : Prop := uc = false -> PoolConcProofs.caches w 
 
 Lemma gstep_nocache w o : nocache w -> nocache (gstep w o).
 Proof.
-  intros H U. specialize (H U). destruct o as [p|p bk|d]; simpl.
+  intros H U. specialize (H U). destruct o as [p|p bk|d|p]; simpl.
   - unfold Allocate. rewrite U.
     assert (PoolConcProofs.caches (fst (let '(w0, bk) := pvNewBlock C w p in (add_live w0 p bk, bk))) = ([], [])) as V.
     { pose proof (PoolConcProofs.pvNewBlock_caches C w p) as K. destruct (pvNewBlock C w p) as [w0 bk]. cbn [fst] in *.
@@ -837,15 +917,24 @@ Proof.
     rewrite PoolConcProofs.pvDeleteBlock_caches, PoolConcProofs.remove_live_caches. exact H.
   - unfold MergeFrom. rewrite U. cbv zeta. unfold PoolConcProofs.caches in *. apply pair_equal_spec in H. destruct H as [H0 H1].
     destruct (lfree (getp w (negb d))); [|destruct (lfree (getp w d))]; destruct d; simpl in *; rewrite ?H0, ?H1; reflexivity.
+  - unfold DeallocateAll. destruct (lfree (getp w p)) eqn:El; [exact H|]. rewrite <- El. cbv zeta.
+    assert (forall l' w0, PoolConcProofs.caches (return_all w0 l') = PoolConcProofs.caches w0) as RA
+      by (intros l' w0; unfold return_all; apply PoolConcProofs.foldl_caches; reflexivity).
+    unfold PoolConcProofs.caches in *. apply pair_equal_spec in H. destruct H as [H0 H1].
+    pose proof (RA (lfree (getp w p)) (return_all w (rev0 (lfull (getp w p)) []))) as R1.
+    pose proof (RA (rev0 (lfull (getp w p)) []) w) as R2.
+    apply pair_equal_spec in R1. destruct R1 as [R10 R11]. apply pair_equal_spec in R2. destruct R2 as [R20 R21].
+    destruct p; cbn [setp cp0 cp1 cache]; rewrite ?R10, ?R11, ?R20, ?R21, ?H0, ?H1; reflexivity.
 Qed.
 
 Lemma gstep_J w o : J w -> nocache w -> J (gstep w o).
 Proof.
-  intros Jw Nc. destruct o as [p|p bk|d]; simpl.
+  intros Jw Nc. destruct o as [p|p bk|d|p]; simpl.
   - apply (J_any p). apply Allocate_J. apply (J_any p). exact Jw.
   - destruct (memb bk (live (getp w p))) eqn:M; [|exact Jw]. apply (J_any p). apply Deallocate_J; [apply (J_any p); exact Jw|apply memb_In; exact M].
   - apply (J_any d). apply MergeFrom_J; [|apply (J_any d); exact Jw].
     intros U. specialize (Nc U). unfold PoolConcProofs.caches in Nc. apply pair_equal_spec in Nc. destruct Nc. destruct d; assumption.
+  - apply (J_any p). apply DeallocateAll_J. apply (J_any p). exact Jw.
 Qed.
 
 (* THE INVARIANT HOLDS AFTER EVERY HISTORY of Allocate / Deallocate (of live blocks) / MergeFrom on both pools *)
@@ -916,5 +1005,97 @@ Proof.
   cbv zeta. destruct (J_all_histories ops) as (Jw & _). apply (J_any p) in Jw.
   destruct Jw as (_ & (_ & _ & _ & _ & _ & P6 & _ & _ & P9) & _). split; [exact P9|].
   unfold lb in P6. apply NoDup_app_iff in P6. tauto.
+Qed.
+
+(* ---------- every buffer is returned at most once ---------- *)
+Lemma returned_setp w p x : returned (setp w p x) = returned w.
+Proof. destruct p; reflexivity. Qed.
+Lemma returned_set_lists w p a b : returned (set_lists w p a b) = returned w.
+Proof. unfold set_lists. apply returned_setp. Qed.
+Lemma returned_attach_new w p : returned (attach_new C w p) = returned w.
+Proof. unfold attach_new, new_buffer. rewrite returned_set_lists. reflexivity. Qed.
+Lemma returned_take w p : returned (fst (take w p)) = returned w.
+Proof. unfold take. cbv zeta. simpl fst. destruct (_ =? 0); [rewrite returned_set_lists|]; reflexivity. Qed.
+Lemma returned_pvNewBlock w p : returned (fst (pvNewBlock C w p)) = returned w.
+Proof.
+  unfold pvNewBlock. cbv zeta. rewrite returned_take.
+  match goal with |- returned (if ?c then _ else _) = _ => destruct c end; [rewrite returned_attach_new|];
+  (destruct (lfree (getp w p)); [apply returned_attach_new|reflexivity]).
+Qed.
+Lemma returned_Allocate w p : returned (fst (Allocate C uc w p)) = returned w.
+Proof.
+  unfold Allocate.
+  assert (returned (fst (let '(w0, bk) := pvNewBlock C w p in (add_live w0 p bk, bk))) = returned w) as V.
+  { pose proof (returned_pvNewBlock w p) as K. destruct (pvNewBlock C w p) as [w0 bk]. cbn [fst] in *. unfold add_live. rewrite returned_setp. exact K. }
+  destruct (cache (getp w p)); [exact V|]. destruct uc; [|exact V]. cbn [fst]. unfold add_live, set_cache. rewrite !returned_setp. reflexivity.
+Qed.
+
+Lemma returned_pvDeleteBlock w p bk :
+  returned (pvDeleteBlock C w p bk) = returned w \/ returned (pvDeleteBlock C w p bk) = fst bk :: returned w.
+Proof.
+  unfold pvDeleteBlock. cbv zeta. set (w1 := push w bk).
+  set (w2 := if fc w1 (fst bk) =? 1 then move_head w1 p (fst bk) else w1).
+  assert (returned w2 = returned w) as R.
+  { unfold w2, move_head. destruct (fc w1 (fst bk) =? 1); [rewrite returned_set_lists|]; reflexivity. }
+  assert (forall b, returned (drop_head w2 p b) = b :: returned w2) as DH by (intros; unfold drop_head, set_lists; destruct p; reflexivity).
+  assert (forall b, returned (drop_mid w2 p b) = b :: returned w2) as DM by (intros; unfold drop_mid, set_lists; destruct p; reflexivity).
+  repeat match goal with |- context [if ?c then _ else _] => destruct c end; rewrite ?DH, ?DM, R; auto.
+Qed.
+
+Lemma pvDeleteBlock_NR q w bk : Jq q (Some bk) w -> NoDup (returned w) -> NoDup (returned (pvDeleteBlock C w q bk)).
+Proof.
+  intros Jw ND. destruct (returned_pvDeleteBlock w q bk) as [E|E]; rewrite E; [exact ND|].
+  constructor; [|exact ND]. destruct Jw as (_ & (_ & P2 & _ & _ & _ & _ & P7 & _) & _).
+  destruct (P7 bk (or_intror eq_refl)) as (_ & _ & O). exact (proj2 (P2 _ O)).
+Qed.
+
+Lemma flush_loop_NR q : forall l w, Jq q None w -> cache (getp w q) = l -> NoDup (returned w) -> NoDup (returned (flush_loop C l w q)).
+Proof.
+  induction l as [|bk rest IH]; intros w Jw E ND; [exact ND|]. cbn [flush_loop].
+  pose proof (cache_pop_J q bk rest w Jw E) as J1. apply IH.
+  - apply pvDeleteBlock_J. exact J1.
+  - rewrite (cache_of_caches _ _ q (PoolConcProofs.pvDeleteBlock_caches C (set_cache w q rest) q bk)). apply cache_set_cache.
+  - apply pvDeleteBlock_NR; [exact J1|]. unfold set_cache. rewrite returned_setp. exact ND.
+Qed.
+
+Lemma returned_return_all : forall l w, returned (return_all w l) = rev l ++ returned w.
+Proof.
+  induction l as [|b t IH]; intros w; [reflexivity|]. unfold return_all. cbn [foldl].
+  fold (return_all (add_returned (set_bytes w b 0 0) b) t). rewrite IH. simpl. rewrite <- app_assoc. reflexivity.
+Qed.
+
+Lemma gstep_NR w o : J w -> NoDup (returned w) -> NoDup (returned (gstep w o)).
+Proof.
+  intros Jw ND. destruct o as [p|p bk|d|p]; simpl.
+  - rewrite returned_Allocate. exact ND.
+  - destruct (memb bk (live (getp w p))) eqn:M; [|exact ND]. apply memb_In in M. apply (J_any p) in Jw.
+    unfold Deallocate. destruct uc.
+    + cbv zeta. unfold set_cache, remove_live. rewrite !returned_setp.
+      destruct (CF <=? lenz (cache (getp w p))); [|exact ND]. unfold flush. apply flush_loop_NR; [exact Jw|reflexivity|exact ND].
+    + apply pvDeleteBlock_NR; [apply remove_live_J; assumption|]. unfold remove_live. rewrite returned_setp. exact ND.
+  - unfold MergeFrom. cbv zeta.
+    set (w1 := if uc then flush C w (negb d) else w).
+    assert (NoDup (returned w1)) as N1.
+    { unfold w1. destruct uc; [|exact ND]. unfold flush. apply flush_loop_NR; [apply (J_any (negb d)); exact Jw|reflexivity|exact ND]. }
+    clearbody w1. destruct (lfree (getp w1 (negb d))); [rewrite !returned_setp; exact N1|]. cbn [lfree].
+    destruct (lfree (getp w1 d)); rewrite !returned_setp; exact N1.
+  - unfold DeallocateAll. destruct (lfree (getp w p)) as [|h t] eqn:El; [exact ND|]. rewrite <- El. rewrite returned_setp.
+    rewrite !returned_return_all. apply (J_any p) in Jw. destruct Jw as (_ & (P1 & P2 & _) & _). set (x := getp w p) in *.
+    rewrite rev0_spec, app_nil_r, rev_involutive. rewrite app_assoc. apply NoDup_app_iff. split; [|split; [exact ND|]].
+    + unfold own in P1. apply NoDup_app_iff in P1. destruct P1 as (N1 & N2 & D). apply NoDup_app_iff.
+      split; [apply NoDup_rev; exact N2|]. split; [exact N1|]. intros y H1 H2. apply in_rev in H1. exact (D y H2 H1).
+    + intros y H1 H2. assert (In y (own x)) as Ho by (unfold own; rewrite in_app_iff in *; rewrite <- in_rev in H1; tauto).
+      exact (proj2 (P2 y Ho) H2).
+Qed.
+
+(* after every history: the list of buffers given back to the manager has no repetition - every buffer is returned at most
+   once (and, by never_returned_while_live, never while a block of it is live) *)
+Theorem returned_once ops : NoDup (returned (grun ops)).
+Proof.
+  assert (J empty_world /\ NoDup (returned empty_world)) as B by (split; [apply J_empty|constructor]).
+  assert (forall l w, J w /\ nocache w /\ NoDup (returned w) -> NoDup (returned (foldl gstep l w))) as K.
+  { induction l as [|o t IH]; intros w (Jw & Nw & Rw); simpl; [exact Rw|]. apply IH.
+    split; [apply gstep_J; assumption|]. split; [apply gstep_nocache; assumption|apply gstep_NR; assumption]. }
+  unfold grun. apply K. destruct B. split; [assumption|]. split; [intros _; reflexivity|assumption].
 Qed.
 End Inv.
